@@ -196,28 +196,28 @@ type AccessRec struct {
 }
 
 type State struct {
-	id       uint64
-	threads  []*Thread
-	cur      int
-	heap     Heap
-	pc       []*Term
-	model    Model // witness: satisfies every conjunct of pc (when evaluable)
-	modelOK  bool
-	inputs   []InputRec
-	symCount map[string]int
-	notes    []Note
-	choices  []string
-	depth    int
-	status   string // "", "done", "panic", "blocked", "unsupported", "assume-false", "unwind"
-	detail   string
-	timers   []int   // heap ids of timer objects
-	sleeps   []*Term // recorded time.Sleep durations
-	clock    int     // number of time.Now calls
-	env      map[string]*StrV
-	sideVals  map[string]int    // sync objects (mutex held, waitgroup count, once done, timer active)
+	id        uint64
+	threads   []*Thread
+	cur       int
+	heap      Heap
+	pc        []*Term
+	model     Model // witness: satisfies every conjunct of pc (when evaluable)
+	modelOK   bool
+	inputs    []InputRec
+	symCount  map[string]int
+	notes     []Note
+	choices   []string
+	depth     int
+	status    string // "", "done", "panic", "blocked", "unsupported", "assume-false", "unwind"
+	detail    string
+	timers    []int   // heap ids of timer objects
+	sleeps    []*Term // recorded time.Sleep durations
+	clock     int     // number of time.Now calls
+	env       map[string]*StrV
+	sideVals  map[string]int // sync objects (mutex held, waitgroup count, once done, timer active)
 	sideOwned bool
-	sideStr   map[string]string // mutex holder names (diagnostics)
-	held      []string          // mutex keys currently held (all threads)
+	sideStr   map[string]string  // mutex holder names (diagnostics)
+	held      []string           // mutex keys currently held (all threads)
 	dom       map[int32]*byteDom // allowed values of 8-bit inputs (from single-variable conjuncts)
 	linked    map[int32]bool     // variables occurring in multi-variable conjuncts
 	wide      map[int32]*wideDom // explicit small domains of wider variables
@@ -225,13 +225,13 @@ type State struct {
 	lastSec   *Term
 	lastNsec  *Term
 	fresh     int
-	access   []AccessRec
-	track    int // heap object id whose reachable accesses are recorded (C10); 0 = off
+	access    []AccessRec
+	track     int // heap object id whose reachable accesses are recorded (C10); 0 = off
 	trackInfo *trackInfo
 	jsGlobals map[string]Value
 	steps     int64
 	selForks  int
-	writes   []*StrV
+	writes    []*StrV
 }
 
 var stateSeq uint64
@@ -240,27 +240,27 @@ func newStateID() uint64 { return atomic.AddUint64(&stateSeq, 1) }
 
 func (s *State) fork() *State {
 	n := &State{
-		id:      newStateID(),
-		cur:     s.cur,
-		heap:    s.heap.fork(),
-		pc:      append([]*Term(nil), s.pc...),
-		model:   s.model,
-		modelOK: s.modelOK,
-		inputs:  append([]InputRec(nil), s.inputs...),
-		notes:   append([]Note(nil), s.notes...),
-		choices: append([]string(nil), s.choices...),
-		depth:   s.depth,
-		timers:  append([]int(nil), s.timers...),
-		sleeps:  append([]*Term(nil), s.sleeps...),
-		clock:   s.clock,
-		env:     s.env,
-		track:   s.track,
+		id:        newStateID(),
+		cur:       s.cur,
+		heap:      s.heap.fork(),
+		pc:        append([]*Term(nil), s.pc...),
+		model:     s.model,
+		modelOK:   s.modelOK,
+		inputs:    append([]InputRec(nil), s.inputs...),
+		notes:     append([]Note(nil), s.notes...),
+		choices:   append([]string(nil), s.choices...),
+		depth:     s.depth,
+		timers:    append([]int(nil), s.timers...),
+		sleeps:    append([]*Term(nil), s.sleeps...),
+		clock:     s.clock,
+		env:       s.env,
+		track:     s.track,
 		trackInfo: s.trackInfo,
 		jsGlobals: s.jsGlobals,
 		steps:     s.steps,
 		selForks:  s.selForks,
-		access:  append([]AccessRec(nil), s.access...),
-		writes:  append([]*StrV(nil), s.writes...),
+		access:    append([]AccessRec(nil), s.access...),
+		writes:    append([]*StrV(nil), s.writes...),
 	}
 	n.symCount = make(map[string]int, len(s.symCount))
 	for k, v := range s.symCount {
@@ -358,8 +358,8 @@ func (s *State) store(p Ptr, v Value) {
 	}
 }
 
-func (s *State) mapObj(m MapV) *MapObj    { return s.heap.get(m.obj).v.(*MapObj) }
-func (s *State) mapObjW(m MapV) *MapObj   { return s.heap.own(m.obj, s.id).v.(*MapObj) }
+func (s *State) mapObj(m MapV) *MapObj     { return s.heap.get(m.obj).v.(*MapObj) }
+func (s *State) mapObjW(m MapV) *MapObj    { return s.heap.own(m.obj, s.id).v.(*MapObj) }
 func (s *State) chanObj(c ChanV) *ChanObj  { return s.heap.get(c.obj).v.(*ChanObj) }
 func (s *State) chanObjW(c ChanV) *ChanObj { return s.heap.own(c.obj, s.id).v.(*ChanObj) }
 
